@@ -31,6 +31,7 @@ def main():
     ap.add_argument("--limit", type=int, default=0)
     ap.add_argument("--only-kinds", default="")
     ap.add_argument("--resume", action="store_true")
+    ap.add_argument("--recheck", action="store_true", help="re-run only the checks on the survivors recorded in <out>/survivors.jsonl (after the rules changed)")
     a = ap.parse_args()
     os.makedirs(a.out, exist_ok=True)
     files = a.files.split(",")
@@ -43,6 +44,12 @@ def main():
         m["id"] = "%s:%d:%d:%s" % (m["file"], m["line"], m["start"], m["kind"])
     done = set()
     resf = os.path.join(a.out, "results.jsonl")
+    if a.recheck:
+        keep = set(json.loads(l)["id"] for l in open(os.path.join(a.out, "survivors.jsonl")))
+        muts = [m for m in muts if m["id"] in keep]
+        resf = os.path.join(a.out, "recheck.jsonl")
+        if os.path.exists(resf):
+            os.remove(resf)
     if a.resume and os.path.exists(resf):
         for l in open(resf):
             done.add(json.loads(l)["id"])
@@ -83,7 +90,7 @@ def main():
                         res["status"] = "nobuild"
                     else:
                         fails = 0
-                        for attempt in range(2):
+                        for attempt in range(0 if a.recheck else 2):
                             rc, out = run("go test -vet=off -count=1 -timeout 40s ./...", wt, 200)
                             if rc == 0:
                                 break
@@ -96,10 +103,9 @@ def main():
                         else:
                             res["flaky"] = fails
                             fired = {}
-                            for p in props:
-                                rc, out = run(["/verif/bin/mqttverif", "check", "-p", p, "-repo", wt, "-no-evidence"], "/verif", 300)
-                                if "VIOLATION" in out:
-                                    fired[p] = [l.split("construct", 1)[1].strip() for l in out.splitlines() if l.strip().startswith("construct")][:4]
+                            rc, out = run(["/verif/bin/mqttverif", "check", "-p", "ALL", "-repo", wt, "-no-evidence"], "/verif", 600)
+                            if "VIOLATION" in out:
+                                fired["ALL"] = [l.split("construct", 1)[1].strip() for l in out.splitlines() if l.strip().startswith("construct")][:6]
                             res["fired"] = fired
                             res["status"] = "checks" if fired else "survived"
                 finally:
